@@ -246,3 +246,100 @@ Print Assumptions C01_source_instantiate_is_model.
 Theorem C01_source_create_is_model : forall w args, MiniPy.run (create_env w args) create_src = create_fn w args.
 Proof. exact create_is_model. Qed.
 Print Assumptions C01_source_create_is_model.
+
+(* ---------- how defaults travel down the wrapper tree: the regenerated source (Gen/FactsWrapperSrc.v) ----------
+   harness/translate/WrapperSrc.py dumps, statement by statement, (a) the property DataclassWrapper.defaults, (b) inside the field
+   loop of DataclassWrapper.__init__ the choice of the default handed down for one field (partial keywords / dict / instance) and
+   (c) the four-way split subparser-or-choice field / dataclass member / Optional-or-Union member / plain field.  The theorems say
+   what the MiniPy interpreter computes from them for EVERY input; `*_is_child_default(s)` restate (a) and (b) in the vocabulary of
+   Model/Defaults.v: they ARE child_defaults / root_defaults / child_default of the hand model (run_fld's recursion is the model's).
+   Left open: self.parent.defaults is an arbitrary value (the same property of the parent); utils.default_value, utils.is_*,
+   utils.contains_/get_dataclass_type_arg, dataclasses.is_dataclass, is_dataclass_instance are tables; FieldWrapper(..) /
+   DataclassWrapper(..) build records that keep their arguments; `self` is a token.  Hypotheses: the field object has the attributes
+   read (name / metadata / default), a functools.partial has a keywords dict, no record claims the class name "dict"; for the link,
+   every non-None default of the parent is an instance that has the member (attr_ok). *)
+From SPV Require Import Gen.FactsWrapperSrc Proofs.MiniPyWrapper.
+
+Theorem C01_source_defaults_is_model : forall own field parent pdefs name dv,
+  match defaults_fn own field parent pdefs name dv with
+  | Err z => MiniPy.exec_block (df_env own field parent pdefs name dv) defaults_src = Err z
+  | Ok v => exists r', MiniPy.exec_block (df_env own field parent pdefs name dv) defaults_src = Ok (r', Some v)
+                       /\ MiniPy.lookup "self._defaults" r' = Some v
+  end.
+Proof. exact defaults_is_model. Qed.
+Print Assumptions C01_source_defaults_is_model.
+
+Theorem C01_source_defaults_is_child_defaults : forall srcs cd defs n cn cfs nd field parent dv,
+  is_none_v field = false -> is_none_v parent = false ->
+  tbl_call dv field = Ok (enc_dvalue (dvalue srcs cn cfs nd)) ->
+  Forall (attr_ok n) defs ->
+  defaults_fn (enc_own cd) field parent (map enc_vt defs) (MiniPy.VS n) dv
+  = Ok (MiniPy.VL (map enc_vt (child_defaults srcs cd defs n cn cfs nd))).
+Proof. exact defaults_is_child_defaults. Qed.
+Print Assumptions C01_source_defaults_is_child_defaults.
+
+Theorem C01_source_defaults_is_root_defaults : forall i parent pdefs name dv,
+  defaults_fn (enc_own i) MiniPy.VNone parent pdefs name dv = Ok (MiniPy.VL (map enc_vt (root_defaults i))).
+Proof. exact defaults_is_root_defaults. Qed.
+Print Assumptions C01_source_defaults_is_root_defaults.
+
+Theorem C01_source_field_default_is_model : forall dfn dflt fcls ffs n,
+  MiniPy.rget "name" ffs = Some n -> partial_ok dfn = true -> record_not_dict dflt = true ->
+  match pick_fn dfn dflt n with
+  | Err z => MiniPy.exec_block (pk_env dfn dflt fcls ffs) field_default_src = Err z
+  | Ok v => exists r1, MiniPy.exec_block (pk_env dfn dflt fcls ffs) field_default_src = Ok (r1, None)
+                       /\ MiniPy.lookup "field_default" r1 = Some v
+  end.
+Proof. exact field_default_is_model. Qed.
+Print Assumptions C01_source_field_default_is_model.
+
+Theorem C01_source_partial_keyword_by_presence : forall dfn dflt n kw v,
+  partial_kw dfn = Some (MiniPy.VD kw) -> MiniPy.dget n kw = Some v -> pick_fn dfn dflt n = Ok v.
+Proof. exact pick_partial_present. Qed.
+Print Assumptions C01_source_partial_keyword_by_presence.
+
+Theorem C01_source_field_default_is_child_default : forall wd n,
+  match wd with Some D => attr_ok n D /\ is_vnone D = false | None => True end ->
+  exists v, pick_fn MiniPy.VNone (match wd with Some D => enc_vt D | None => MiniPy.VNone end) (MiniPy.VS n) = Ok v
+            /\ option_map enc_vt (child_default wd n) = (if is_const_v "dataclasses.MISSING" v || is_none_v v then None else Some v).
+Proof. exact field_default_is_child_default. Qed.
+Print Assumptions C01_source_field_default_is_child_default.
+
+Theorem C01_source_split_is_model : forall T ftype fcls ffs n m fdflt fd selfv prefix sprefix fields children,
+  MiniPy.rget "name" ffs = Some n -> MiniPy.rget "metadata" ffs = Some (MiniPy.VD m) -> MiniPy.rget "default" ffs = Some fdflt ->
+  match split_fn T ftype (MiniPy.VR fcls ffs) n m fdflt fd selfv prefix sprefix fields children with
+  | Err z => MiniPy.exec_block (sp_env T ftype (MiniPy.VR fcls ffs) fd selfv prefix sprefix fields children) split_src = Err z
+  | Ok (fl, ch) => exists r1, MiniPy.exec_block (sp_env T ftype (MiniPy.VR fcls ffs) fd selfv prefix sprefix fields children) split_src = Ok (r1, None)
+                              /\ MiniPy.lookup "self.fields" r1 = Some (MiniPy.VL fl) /\ MiniPy.lookup "self._children" r1 = Some (MiniPy.VL ch)
+  end.
+Proof. exact split_is_model. Qed.
+Print Assumptions C01_source_split_is_model.
+
+(* non-vacuity: the dumped statements run.  A child named "opt" under a parent with defaults [None, Parent(opt=Child(x=1))];
+   a partial with keyword lr=0 (falsy, still taken); the Optional member becomes an optional, not required child wrapper. *)
+Definition NVW_INST : MiniPy.val := MiniPy.VR "Parent" [("opt", MiniPy.VR "Child" [("x", MiniPy.VN 1)])].
+Definition NVW_FIELD : MiniPy.val := MiniPy.VR "Field" [("name", MiniPy.VS "opt"); ("metadata", MiniPy.VD []); ("default", MiniPy.VNone)].
+Definition NVW_T : sp_tables :=
+  mksp [(MiniPy.VC "Optional[Child]", MiniPy.VB false)] [(NVW_FIELD, MiniPy.VB false)] [(NVW_FIELD, MiniPy.VB false)]
+       [(MiniPy.VC "Optional[Child]", MiniPy.VB true)] [(MiniPy.VC "Optional[Child]", MiniPy.VC "Child")]
+       [(MiniPy.VC "Optional[Child]", MiniPy.VB false)] [].
+Example C01_source_wrapper_nonvacuous :
+  MiniPy.run (df_env [] NVW_FIELD (MiniPy.VC "parent") [MiniPy.VNone; NVW_INST] (MiniPy.VS "opt") []) defaults_src
+  = Ok (MiniPy.VL [MiniPy.VNone; MiniPy.VR "Child" [("x", MiniPy.VN 1)]])
+  /\ MiniPy.run (df_env [] NVW_FIELD (MiniPy.VC "parent") [] (MiniPy.VS "opt") [(NVW_FIELD, MiniPy.VNone)]) defaults_src
+     = Ok (MiniPy.VL [MiniPy.VNone])
+  /\ MiniPy.run (df_env [] NVW_FIELD (MiniPy.VC "parent") [] (MiniPy.VS "opt") [(NVW_FIELD, MISSING)]) defaults_src = Ok (MiniPy.VL [])
+  /\ MiniPy.run (df_env [] NVW_FIELD (MiniPy.VC "parent") [MiniPy.VR "Other" []] (MiniPy.VS "opt") []) defaults_src = Err (Raise "AttributeError")
+  /\ pick_fn (MiniPy.VR "functools.partial" [("func", MiniPy.VC "Opt"); ("keywords", MiniPy.VD [(MiniPy.VS "lr", MiniPy.VN 0)])])
+             (MiniPy.VR "Opt" [("lr", MiniPy.VN 3)]) (MiniPy.VS "lr") = Ok (MiniPy.VN 0)
+  /\ pick_fn MiniPy.VNone NVW_INST (MiniPy.VS "opt") = Ok (MiniPy.VR "Child" [("x", MiniPy.VN 1)])
+  /\ pick_fn MiniPy.VNone (MiniPy.VD [(MiniPy.VS "other", MiniPy.VN 1)]) (MiniPy.VS "opt") = Ok MISSING
+  /\ (exists r1, MiniPy.exec_block (pk_env MiniPy.VNone NVW_INST "Field" [("name", MiniPy.VS "opt")]) field_default_src = Ok (r1, None)
+                 /\ MiniPy.lookup "field_default" r1 = Some (MiniPy.VR "Child" [("x", MiniPy.VN 1)]))
+  /\ split_fn NVW_T (MiniPy.VC "Optional[Child]") NVW_FIELD (MiniPy.VS "opt") [] MiniPy.VNone MISSING (MiniPy.VC "self") (MiniPy.VS "") (MiniPy.VS "") [] []
+     = Ok ([], [MiniPy.VR "DataclassWrapper" [("dataclass", MiniPy.VC "Child"); ("name", MiniPy.VS "opt"); ("default", MiniPy.VNone);
+                                               ("parent", MiniPy.VC "self"); ("_field", NVW_FIELD); ("required", MiniPy.VB false); ("optional", MiniPy.VB true)]])
+  /\ (exists r1, MiniPy.exec_block (sp_env NVW_T (MiniPy.VC "Optional[Child]") NVW_FIELD MISSING (MiniPy.VC "self") (MiniPy.VS "") (MiniPy.VS "") [] []) split_src = Ok (r1, None)
+                 /\ MiniPy.lookup "self.fields" r1 = Some (MiniPy.VL [])).
+Proof. repeat split; try (vm_compute; reflexivity); eexists; split; vm_compute; reflexivity. Qed.
+Print Assumptions C01_source_wrapper_nonvacuous.
